@@ -152,10 +152,14 @@ class Evaluator:
                             % (len(dups), same, a.trace, trace_text(a), b.trace, trace_text(b)), cfg, case, feat, rcl)
             if len(done) != len(ref_cl):
                 more = len(done) > len(ref_cl)
-                self.report("count", "more" if more else "fewer",
+                # fewer executions than classes: are program-visible outcomes lost with them (unsound), or not (the
+                # dependency relation that defines the classes is coarser than what ODPOR reverses)?
+                lost = ref.outcomes() - res.outcomes()
+                detail = "more" if more else ("fewer+outcomes-lost" if lost else "fewer")
+                self.report("count", detail,
                             "%d complete executions explored for %d equivalence classes of the %d complete executions found "
-                            "without reduction (%d distinct classes among those explored)" % (len(done), len(ref_cl), nref, len(cl)),
-                            cfg, case, feat, rcl)
+                            "without reduction (%d distinct classes among those explored; %d of the %d terminal outcomes lost)"
+                            % (len(done), len(ref_cl), nref, len(cl), len(lost), len(ref.outcomes())), cfg, case, feat, rcl)
             alien = [k for k in cl if k not in ref_cl]
             if alien:
                 r = cl[alien[0]][0]
